@@ -22,7 +22,7 @@ ANCHORS = ['PublicInference.__init__', 'PublicInference.estimate', 'PublicInfere
            'estimate_total', 'CliqueVector.from_data']
 DECIDING = ['weights_valid', 'weights_sum_to_total', 'records_unchanged', 'fit_not_worse_than_uniform']
 ASSUMPTIONS = ['total rtol 1e-9 (the estimated total is taken from the harness\'s pinv-based reference, C09)',
-               'loss <= uniform*(1+1e-9); both recomputed by the harness from Counter-built weighted tables',
+               'loss <= uniform*(1+1e-9) + 1e-13 * (first-order rounding allowance sum |r/sigma| |Q||x|/sigma); both recomputed by the harness from Counter-built weighted tables',
                'projections are tuples and queries explicit matrices (PublicInference has no fix_measurements step)']
 PLAN = {
     'quick': dict(cases=320, budget_s=120, case_timeout=300, min_cases=50),
@@ -63,9 +63,10 @@ def describe(case):
                        for c in case['calls']])
 
 
-def weighted_loss(attrs, shape, rows, w, plain):
+def weighted_loss(attrs, shape, rows, w, plain, with_cond=False):
     """0.5 * sum ||(Q m - y)/sigma||^2 with m the weighted contingency table of the public records."""
     f = 0.0
+    cond = 0.0   # first-order sensitivity of the loss to a relative perturbation of the table: sum |r/sigma| |Q||x| / sigma
     for Q, y, s, proj in plain:
         cnt = Counter()
         ax = [attrs.index(a) for a in proj]
@@ -77,7 +78,8 @@ def weighted_loss(attrs, shape, rows, w, plain):
         x = T.reshape(-1)
         r_ = ((x if Q is None else Q @ x) - y) / s
         f += 0.5 * float(r_ @ r_)
-    return f
+        cond += float(np.abs(r_) @ ((np.abs(x) if Q is None else np.abs(Q) @ np.abs(x)) / s))
+    return (f, cond) if with_cond else f
 
 
 def run_case(case, ctx):
@@ -131,10 +133,12 @@ def run_case(case, ctx):
                 ctx.check(False, 'weights_valid', 'invalid_weights', what + 'fresh object returned invalid weights')
                 return
         T = float(w.sum())
-        f = weighted_loss(attrs, shape, rows, w, plain)
+        f, cond = weighted_loss(attrs, shape, rows, w, plain, with_cond=True)
         fu = weighted_loss(attrs, shape, rows, np.ones(n) * T / n, plain)
         ctx.stat('loss_over_uniform', f / fu if fu > 0 else 1.0)
-        ctx.check(f <= fu * (1 + 1e-9) + 1e-12, 'fit_not_worse_than_uniform', 'worse_than_uniform',
+        # the two tables are sums of n float weights: equal weightings differ by ~n ulp, amplified by |Q||x|/sigma
+        # (thorough tier: 1e-8 relative with counts 1e5 and noise 1e-3 on identical public records)
+        ctx.check(f <= fu * (1 + 1e-9) + 1e-12 + 1e-13 * cond, 'fit_not_worse_than_uniform', 'worse_than_uniform',
                   what + 'loss %r of the reweighted public data exceeds %r of the uniformly weighted data (%d records, class %s)' % (
                       f, fu, n, case['public_class']))
         if ctx.failures:
